@@ -1256,6 +1256,38 @@ func prefixConsistent(a, b *hnode) (bool, string) {
 	return true, ""
 }
 
+// assignedValuesDiffer: do two nodes disagree on the round, witness flag, Lamport timestamp or round
+// received of an event both hold, or on the famous witnesses of a round both decided?
+func assignedValuesDiffer(a, b *hnode) bool {
+	for _, g := range b.order {
+		ea, e1 := a.store.GetEvent(g.ev.Hex())
+		eb, e2 := b.store.GetEvent(g.ev.Hex())
+		if e1 != nil || e2 != nil {
+			continue
+		}
+		if fo(ea.VerifRound()) != fo(eb.VerifRound()) || fo(ea.VerifLamport()) != fo(eb.VerifLamport()) {
+			return true
+		}
+		if ea.VerifRoundReceived() != nil && eb.VerifRoundReceived() != nil && *ea.VerifRoundReceived() != *eb.VerifRoundReceived() {
+			return true
+		}
+	}
+	for rd := 0; rd <= b.store.LastRound(); rd++ {
+		ra, e1 := a.store.GetRound(rd)
+		rb, e2 := b.store.GetRound(rd)
+		if e1 != nil || e2 != nil || !ra.VerifDecided() || !rb.VerifDecided() {
+			continue
+		}
+		fa, fb := ra.FamousWitnesses(), rb.FamousWitnesses()
+		sort.Strings(fa)
+		sort.Strings(fb)
+		if strings.Join(fa, ",") != strings.Join(fb, ",") {
+			return true
+		}
+	}
+	return false
+}
+
 func isAncestor(a, b *gEvent, memo map[[2]int]bool) bool {
 	// a ancestor-or-equal of b
 	if a == b {
